@@ -173,7 +173,7 @@ var transforms = []string{"permute", "rotate-start", "repeat-vertex", "closing-v
 func init() {
 	stages["c17-search"] = func(ctx *Ctx, cnt func(q, t int) int, replay string) Result {
 		col := NewCollector("C17", "search", "C01's generators × 10 spelling transformations (path permutation, start rotation, repeated vertex, closing vertex, single reversal under EvenOdd, global reversal with Positive↔Negative, subject/clip exchange for ∪ ∩ ⊕, x-mirror, y-mirror, 90° rotation); both solutions compared as regions by the Lean oracle outside the 2-band of the (transformed) inputs; every call repeated and compared exactly; non-trivial = non-empty solution with ≥ 2 judged faces")
-		parallelFor(ctx, cnt(2500, 150000), true, col, func(o *Oracle, i int) {
+		parallelFor(ctx, cnt(10000, 150000), true, col, func(o *Oracle, i int) {
 			r := NewRng(ctx.Seed, "c17", i)
 			c := spellCase{boolCase: genBoolCase(r, ctx.Tier), Transform: transforms[r.Intn(len(transforms))], K: r.Intn(7) + 1}
 			if c.Transform == "reverse-evenodd" {
